@@ -18,6 +18,7 @@ CONSTANTS Leaves,      \* set of leaf recipes [c |-> "leaf", id, lo, hi]
           MaxComp,     \* number of constructor applications
           MaxKids,     \* arguments per application
           DictIds,     \* how many ids an assumption / partial interpretation may name
+          FixOpts,     \* subset of {-1, 0, 1}: pre-fixing of explicitly named compounds by their own bounds (-1 = not fixed)
           ExpIds       \* explicit ids to draw from ({} = a fresh id "N<k>" per application); a non-empty set
                        \* switches the builder to ADVERSARIAL mode: ids may be reused, arguments may clash
 
@@ -49,12 +50,21 @@ Apply(cls) ==
   /\ nb < MaxComp
   /\ \E args \in ArgSeqs(cls) : \E v \in ValOpts(cls) : \E s \in SignOpts(cls) : \E io \in IdOpts :
      \E ident \in (IF cls = "Not" THEN {""} ELSE IdsOf(io)) : \E dd \in DefOpts(cls, args) :
-       LET r == [c |-> cls, a |-> args, id |-> ident, v |-> v, s |-> s, d |-> dd] IN
+     \E fx \in (IF ident = "" \/ cls \in {"ccAny", "ccXor", "Cfg"} THEN {-1} ELSE FixOpts) :
+       LET r == [c |-> cls, a |-> args, id |-> ident, v |-> v, s |-> s, d |-> dd, f |-> fx] IN
        /\ (cls = "Not" => io = CHOOSE x \in IdOpts : TRUE)
        /\ pool' = pool \cup {r}
        /\ focus' = r
   /\ nb' = nb + 1
-Next == \E cls \in Classes : Apply(cls)
+\* adversarial mode: put two previously built propositions under DIFFERENT parents of one model, so that equal ids with
+\* different definitions (bounds, sign, value, children) meet without being siblings
+TwinLeaf(i) == [c |-> "leaf", id |-> i, lo |-> 0, hi |-> 1]
+Wrap(cls, args) == [c |-> cls, a |-> args, id |-> "", v |-> 0, s |-> 0, d |-> "", f |-> -1]
+Twin == /\ Adversarial /\ nb = MaxComp /\ focus.c # "All"
+        /\ \E r1, r2 \in pool : r1 # r2 /\
+              focus' = Wrap("All", << Wrap("Any", <<r1, TwinLeaf("twx")>>), Wrap("Any", <<r2, TwinLeaf("twy")>>) >>)
+        /\ nb' = nb + 1 /\ UNCHANGED pool
+Next == (\E cls \in Classes : Apply(cls)) \/ Twin
 Spec == Init /\ [][Next]_vars
 
 (* ---- the listed properties, stated on the specification ------------------ *)
@@ -91,7 +101,7 @@ Dicts(S) == UNION { { f \in [T -> UNION { Opts(NodeOf(F, i)) : i \in T }] : \A i
                     : T \in { T \in SUBSET S : Cardinality(T) <= DictIds } }
 Compl(I) == { a \in Box(F) : \A i \in DOMAIN I \cap DOMAIN a : InIv(a[i], I[i]) }
 \* C06: partial evaluation is sound for every completion; flags and equation bounds are exact
-C06 == Claimable(F) =>
+C06 == (~IsAtom(F) /\ WellDefined(F) /\ NoByRef(F)) =>
           /\ \A I \in Dicts(LeafIds(F)) : \A a \in Compl(I) : \A m \in Flat(F) : InIv(Pt(m, a), Iv(m, I))
           /\ \A m \in Comps(F) : LET vals == { KidSum(m, f) : f \in KidBox(m) } IN
                 /\ EqBounds(m) = << SetMin(vals), SetMax(vals) >>
